@@ -452,10 +452,21 @@ func (p *notifier) notifyNow(event Event) error {
 	now := timeFunc()
 	dbEvent.Latest = &now
 	if p.isPersistent() {
+		finishedMeanwhile := false
 		if err := p.db.WriteShelf(p.ctx, p.shelfName(), func(writer stoabs.Writer) error {
+			// the event may have been marked as finished while the receiver was busy (e.g. the payload of a private TX arrived).
+			// Writing it back would bring it to life again: it would be retried and survive restarts although it was completed.
+			if _, err := p.readEvent(writer, dbEvent.Hash); errors.Is(err, stoabs.ErrKeyNotFound) {
+				finishedMeanwhile = true
+				return nil
+			}
 			return p.writeEvent(writer, *dbEvent)
 		}); err != nil {
 			return retry.Unrecoverable(err)
+		}
+		if finishedMeanwhile {
+			// no longer exists so done, this stops any go routine
+			return nil
 		}
 	}
 
